@@ -257,6 +257,10 @@ def run(prop, tier, seed):
     n = 220 if quick else 6000
     d = C.scratch_dir("c11")
     progs = [gen_program(rng) for _ in range(n)]
+    deep_rounds = {}
+    for k in range(n - (6 if quick else 60), n):
+        deep_rounds[k] = rng.randint(88, 200)
+        progs[k] = G.count_loop(deep_rounds[k], body=rng.choice(["혀어어어엉............. 항.", "형", "형.. 항.."])) + " 형. 형.."
     parsed = C.run_impl(["parse " + G.cps(p) for p in progs])
     infos = []
     for r in parsed:
@@ -266,7 +270,15 @@ def run(prop, tier, seed):
             cs.append((int(f[3]), int(f[4]), "".join(chr(int(x)) for x in f[7].split(".")) if f[7] else ""))
         infos.append(cs)
     scripts = [gen_script(rng, len(cs)) for cs in infos]
-    st = C.run_impl(["dbgstates 400 " + G.cps(p) for p in progs])
+    # deep histories: `run` over several hundred commands (a counting loop, breakpoint on the command after it), then
+    # `previous` as often as commands were executed, or nearly so, and the state shown there and after stepping forward again
+    # ("`previous` restores precisely the state before the last step however often it is used")
+    deep = set(range(n - (6 if quick else 60), n))
+    for k in deep:
+        steps = 6 * deep_rounds[k] + 1
+        m = rng.choice([steps, steps - 1, steps + 2, steps - rng.randint(2, 40), rng.randint(500, steps)])
+        scripts[k] = ["b %d" % (len(infos[k]) - 2), "r", "s"] + ["p"] * m + ["s", "n", "s", "r", "s"]
+    st = C.run_impl(["dbgstates %d " % (1400 if k in deep else 400) + G.cps(p) for k, p in enumerate(progs)])
     states = [[bytes.fromhex(h).decode("utf-8") for h in s.split("|")[0].split(",")] if s.split("|")[0] else [] for s in st]
     # what a state dump has to show: the selected stack and every non-empty stack with its elements in order (read through
     # the State API); the layout of the dump is free
@@ -347,7 +359,9 @@ def run(prop, tier, seed):
         if got != want or cls != want_cls:
             # not the exact transcript of the model: a reworded log/help/error line is not a violation as long as the
             # echoed commands, the shown program text and the displayed states are exactly the expected ones
-            if cls == want_cls and loose_pattern(events, end, "d%d.hyeong" % k, path, infos[k], states[k]).match(got):
+            # (the regular expression is only tried on short sessions: on a long transcript that does not match it backtracks
+            # for hours; long sessions go to the linear comparison below)
+            if cls == want_cls and len(scripts[k]) <= 60 and loose_pattern(events, end, "d%d.hyeong" % k, path, infos[k], states[k]).match(got):
                 hist["cosmetic-difference"] += 1
                 continue
             # the debugger may lay a state dump out in its own way: then it only has to show the true state
